@@ -770,7 +770,8 @@ fn raw(role_in: bool, seed: u64, toks: &[&str]) -> String {
 		};
 		obs.push(format!("{{\"res\":\"{}\",\"items\":[{}],\"sent\":\"{}\"}}", res_s, items.join(","), hex(&out)));
 	}
-	let connected = node.pm.list_peers().len();
+	// after a caught panic the PeerManager's locks are poisoned
+	let connected = panic::catch_unwind(AssertUnwindSafe(|| node.pm.list_peers().len())).unwrap_or(0);
 	format!(
 		"{{\"mode\":\"raw\",\"role\":{},\"seed\":{},\"pm_secret\":\"{}\",\"pm_eph\":\"{}\",\"h_static\":\"{}\",\"h_static_pub\":\"{}\",\"h_eph\":\"{}\",\"pm_pub\":\"{}\",\"pm_eph_pub\":\"{}\",\"pm_first\":\"{}\",\"pm_act\":\"{}\",\"pubs\":\"{}\",\"dh\":\"{}\",\"valid\":\"{}\",\"piece_lens\":[{}],\"honest_len\":{},\"frags\":[{}],\"obs\":[{}],\"panic\":{},\"peers\":{},\"sock_disconnected\":{}}}",
 		jstr(if role_in { "in" } else { "out" }),
